@@ -117,6 +117,7 @@ type Lemma struct {
 	Pos      string
 	Induction string
 	Trust    []string
+	Mode     Mode
 }
 
 type IfaceDecl struct {
@@ -382,6 +383,12 @@ func ParseContracts(P *Program) (*Contracts, error) {
 					cur.Props = strings.Fields(rest)
 				}
 			case "arith":
+				if cur == nil && curLemma != nil {
+					if rest == "bv" {
+						curLemma.Mode = ModeBV
+					}
+					continue
+				}
 				if cur == nil {
 					return nil, fmt.Errorf("%s: arith outside func", pos)
 				}
